@@ -226,6 +226,17 @@ func registerCrypto(e *Engine, simple func(string, func(*Run, []Value) Value)) {
 		}
 		return c.Or(alts...)
 	})
+	simple("(*crypto/rand.reader).Read", func(r *Run, a []Value) Value {
+		s := a[1].(SliceV)
+		r.randCnt++
+		if s.len > 0 {
+			arr := r.sliceArr(s)
+			for i := 0; i < s.len; i++ {
+				arr.e[s.off+i] = r.ctx.BV(8, uint64((r.randCnt*31+i*7+1)&0xff))
+			}
+		}
+		return TupleV{r.intTerm(int64(s.len)), IfaceV{}}
+	})
 	simple("crypto/rand.Read", func(r *Run, a []Value) Value {
 		// randomness = fixed distinct bytes per call (never the subject of a property here)
 		s := a[0].(SliceV)
@@ -242,6 +253,15 @@ func registerCrypto(e *Engine, simple func(string, func(*Run, []Value) Value)) {
 func (r *Run) modelGlobal(g interface{ String() string }) (Value, bool) {
 	switch g.String() {
 	case "crypto/rand.Reader":
+		// a reader object whose Read is the model above
+		if p := r.eng.pkgs["crypto/rand"]; p != nil {
+			if tn := p.Type("reader"); tn != nil {
+				if r.randReader.obj == nil {
+					r.randReader = PtrV{obj: r.newObject(tn.Type(), r.zero(tn.Type()))}
+				}
+				return IfaceV{t: types.NewPointer(tn.Type()), v: r.randReader}, true
+			}
+		}
 		return IfaceV{}, true
 	}
 	return nil, false
